@@ -141,9 +141,40 @@ def rsz_scenario(st, tier):
     return prog, g, cfg, ops
 
 
+def core_scenario(st, tier):
+    """a conflict that needs many constraints at once: k 2-bit fields in a cyclic order
+    x0 <= x1 <= ... <= x(k-1) < x0 (no proper subset is unsatisfiable), asked for with both
+    solve_fail_debug settings (the diagnostics search failing subsets of bounded size), plus
+    satisfiable variants (one link removed by an inline-free call on a shorter cycle)"""
+    rng = st.prog
+    k = rng.choice([5, 5, 6])
+    fields = [{"n": "x%d" % i, "k": "s", "w": 2, "s": False, "r": True, "i": 0} for i in range(k)]
+    links = [progs.EXPR(progs.BIN("<=", progs.F("x%d" % i), progs.F("x%d" % (i + 1)))) for i in range(k - 1)]
+    closing = progs.EXPR(progs.BIN("<", progs.F("x%d" % (k - 1)), progs.F("x0")))
+    cyc = rng.random() < 0.6
+    stmts = links + ([closing] if cyc else [])
+    rng.shuffle(stmts)
+    cut = rng.randint(1, len(stmts) - 1)
+    prog = {"enums": [], "top": "K0", "classes": [{"name": "K0", "fields": fields, "blocks": [
+        {"n": "c0", "stmts": stmts[:cut]}, {"n": "c1", "stmts": stmts[cut:]}]}]}
+    ops = [{"op": "new", "cls": "K0"}, {"op": "seed", "p": 0, "k": st.lib.randint(0, 1 << 30)}]
+    orng = st.ops
+    for _ in range(orng.randint(3, 8)):
+        if cyc or orng.random() < 0.5:
+            ops.append({"op": "randomize", "p": 0, "sfd": orng.choice([0, 1, 1])})
+        else:
+            # the closing link comes with the call
+            ops.append({"op": "rw", "p": 0, "inline": [closing], "sfd": orng.choice([0, 1, 1])})
+    return prog, ops
+
+
 def generate(seed, tier):
     st = Streams(seed)
-    kind = st.prog.choice(["flat"] * 6 + ["list"] * 3 + ["rl"] * 2 + ["rsz"] * 2)
+    kind = st.prog.choice(["flat"] * 6 + ["list"] * 3 + ["rl"] * 2 + ["rsz"] * 2 + ["core"])
+    if kind == "core":
+        prog, ops = core_scenario(st, tier)
+        return {"prop": ID, "seed": seed, "prog": prog, "ops": ops, "kind": kind,
+                "probe_seed": st.fault.randint(0, 1 << 30)}
     if kind == "rsz":
         prog, g, cfg, ops = rsz_scenario(st, tier)
         return {"prop": ID, "seed": seed, "prog": prog, "ops": ops, "kind": kind,
